@@ -13,26 +13,27 @@ Import Coq.Strings.String.StringSyntax.
 Open Scope Z_scope.
 
 (* ================= WIF ================= *)
-(* every 32-byte secret (fixed width: leading zero bytes are inside the quantifier; only 0 is excluded, which
-   Key.wif() itself refuses), both compression flags, every network of the table:
+(* every 32-byte secret in 1 .. n-1 (fixed width: leading zero bytes are inside the quantifier; the guard is the
+   range Key.__init__ accepts since the C04 repairs — see secret_out_of_range_refused), both compression flags,
+   every network of the table:
    wif() succeeds; get_key_format reports a private WIF of the right kind whatever is_private the caller passes;
    Key(text, network=h) returns the secret, the flag and h; Key(text) returns the secret, the flag and the
    network check_network_and_key resolves from the candidates of the version byte — or its refusal *)
-Theorem wif_roundtrip : forall fold n km,
+Theorem wif_roundtrip : forall fold oc n km,
   In n all_networks ->
-  km_private km = true -> length (km_secret km) = 32%nat -> of_be (km_secret km) <> 0 ->
+  km_private km = true -> length (km_secret km) = 32%nat -> 0 < of_be (km_secret km) < secp256k1_n ->
   km_network km = nw_name n ->
   exists w,
-    lib_wif km = Ok w /\
+    lib_wif oc km = Ok w /\
     In (nw_name n) (lib_networks_by_wif (nw_prefix_wif n)) /\
     (forall ip, lib_get_key_format fold true (KStr w) ip =
        KfOk {| kf_format := if km_compressed km then FWifCompressed else FWif;
                kf_networks := Some (lib_networks_by_wif (nw_prefix_wif n)); kf_private := true; kf_scripts := [];
                kf_witness := [default_witness]; kf_multisig := [false] |}) /\
     (forall h c ip, network_defined h = true ->
-       lib_key_import fold true (KStr w) (Some h) c ip = Ok (wif_key_obj (km_secret km) (km_compressed km) h)) /\
+       lib_key_import fold true oc (KStr w) (Some h) c ip = Ok (wif_key_obj (km_secret km) (km_compressed km) h)) /\
     (forall c ip,
-       lib_key_import fold true (KStr w) None c ip =
+       lib_key_import fold true oc (KStr w) None c ip =
        match resolve_networks (lib_networks_by_wif (nw_prefix_wif n)) with
        | Ok nw => Ok (wif_key_obj (km_secret km) (km_compressed km) nw)
        | Err e => Err e
@@ -65,8 +66,8 @@ Proof. vm_compute. repeat split; reflexivity. Qed.
 (* the code before fixes/C12-1: the uncompressed WIF of a secret ending in 01 is classified wif_compressed and
    Key(text) fails (before the C11 repair of the 32-byte check it returned the 31-byte number in front of the 01) *)
 Example wif_roundtrip_old_code_refuted :
-  match lib_wif wif_bug_km with
-  | Ok w => lib_key_import false false (KStr w) None true None = Err EKey /\
+  match lib_wif (fun _ => true) wif_bug_km with
+  | Ok w => lib_key_import false false (fun _ => true) (KStr w) None true None = Err EKey /\
             (exists i, lib_get_key_format false false (KStr w) None = KfOk i /\ kf_format i = FWifCompressed)
   | Err _ => False
   end.
@@ -75,21 +76,22 @@ Proof. exact KeyFormatWif.wif_roundtrip_old_code_refuted. Qed.
 (* ================= extended keys ================= *)
 (* HDKey.wif() writes, for the row r of the exporting network that Network.wif_prefix selects — a row whose
    private / witness-type / multisig columns are the ones asked for —, Base58Check of the 78-byte body *)
-Theorem xkey_export_is_row_text : forall pubser k want w,
-  lib_xkey pubser k want = Ok w ->
-  exists n r, In n all_networks /\ nw_name n = km_network k /\ In r (nw_prefixes_wif n) /\
+Theorem xkey_export_is_row_text : forall pubser oc k want w,
+  lib_xkey pubser oc k want = Ok w ->
+  exists n r, km_constructible oc k = true /\ In n all_networks /\ nw_name n = km_network k /\ In r (nw_prefixes_wif n) /\
     wr_private r = (km_private k && want) /\ wr_witness_type r = km_witness_eff k /\ wr_multisig r = km_multisig k /\
     0 <= km_depth k < 256 /\ 0 <= km_child k < 2 ^ 32 /\
     w = xkey_text r (km_depth k) (km_fp k) (km_child k) (km_chain k) (xkey_keydata pubser k want).
 Proof. exact xkey_export_row. Qed.
 
 (* HDKey(text, network=hint, witness_type=wthint, multisig=mshint, compressed=c), for every table row and all
-   field values: every field comes back; the network is what check_network_and_key makes of the hint and the
+   field values (row_key_ok: a 32-byte secret in 1 .. n-1 for a private row; for a public row 02/03 + 32 bytes that the
+   curve oracle accepts): every field comes back; the network is what check_network_and_key makes of the hint and the
    networks carrying this prefix; witness type / multisig are the prefix's when it determines them, else the hint *)
-Theorem xkey_roundtrip : forall fold wc n r depth child fp chain k0 kr hint wthint mshint c,
+Theorem xkey_roundtrip : forall fold wc oc n r depth child fp chain k0 kr hint wthint mshint c,
   In n all_networks -> In r (nw_prefixes_wif n) ->
-  0 <= depth < 256 -> 0 <= child < 2 ^ 32 -> length fp = 4%nat -> length chain = 32%nat -> row_key_ok r k0 kr ->
-  lib_hdkey_import fold wc (KStr (xkey_text r depth fp child chain (k0 :: kr))) hint wthint mshint c =
+  0 <= depth < 256 -> 0 <= child < 2 ^ 32 -> length fp = 4%nat -> length chain = 32%nat -> row_key_ok oc r k0 kr ->
+  lib_hdkey_import fold wc oc (KStr (xkey_text r depth fp child chain (k0 :: kr))) hint wthint mshint c =
   match lib_check_network hint (Some (prefix_networks (wr_prefix r))) with
   | Err e => Err e
   | Ok nw => Ok (xkey_obj (wr_private r) (row_key r k0 kr) c nw chain depth fp child
@@ -98,10 +100,10 @@ Theorem xkey_roundtrip : forall fold wc n r depth child fp chain k0 kr hint wthi
 Proof. exact xkey_import_closed. Qed.
 
 (* HDKey.from_wif(text, network=hint, multisig=mshint, compressed=c) *)
-Theorem xkey_roundtrip_from_wif : forall fold wc n r depth child fp chain k0 kr hint mshint c,
+Theorem xkey_roundtrip_from_wif : forall fold wc oc n r depth child fp chain k0 kr hint mshint c,
   In n all_networks -> In r (nw_prefixes_wif n) ->
-  0 <= depth < 256 -> 0 <= child < 2 ^ 32 -> length fp = 4%nat -> length chain = 32%nat -> row_key_ok r k0 kr ->
-  lib_hdkey_from_wif fold wc (xkey_text r depth fp child chain (k0 :: kr)) hint mshint c =
+  0 <= depth < 256 -> 0 <= child < 2 ^ 32 -> length fp = 4%nat -> length chain = 32%nat -> row_key_ok oc r k0 kr ->
+  lib_hdkey_from_wif fold wc oc (xkey_text r depth fp child chain (k0 :: kr)) hint mshint c =
   match lib_wif_prefix_search (wr_prefix r) None mshint hint with
   | [] => Err EKey
   | m :: _ => Ok (xkey_obj (wr_private r) (row_key r k0 kr) c (match hint with Some h => h | None => hm_network m end)
@@ -168,8 +170,8 @@ Example xkey_concrete :
                km_pubu := x04 :: repeat x33 64; km_compressed := true; km_chain := repeat x5a 32; km_depth := 3;
                km_fp := [x01; x02; x03; x04]; km_child := 2147483649; km_network := "bitcoin"%string;
                km_witness := "segwit"%string; km_multisig := false |} in
-  match lib_xkey true km true with
-  | Ok w => lib_hdkey_import false true (KStr w) None None false true =
+  match lib_xkey true (fun _ => true) km true with
+  | Ok w => lib_hdkey_import false true (fun _ => true) (KStr w) None None false true =
             Ok (xkey_obj true (km_secret km) true "bitcoin"%string (km_chain km) 3 (km_fp km) 2147483649
                          "segwit"%string false)
   | Err _ => False
@@ -184,9 +186,9 @@ Example xkey_uncompressed_old_code_refuted :
                km_pubu := x04 :: repeat x33 32 ++ repeat x44 32; km_compressed := false; km_chain := repeat x5a 32;
                km_depth := 0; km_fp := repeat x00 4; km_child := 0; km_network := "bitcoin"%string;
                km_witness := "legacy"%string; km_multisig := false |} in
-  match lib_xkey false km false with
-  | Ok w => lib_hdkey_import false true (KStr w) None None false true = Err EKey /\
-            lib_hdkey_from_wif false true w None None true = Err EKey
+  match lib_xkey false (fun _ => true) km false with
+  | Ok w => lib_hdkey_import false true (fun _ => true) (KStr w) None None false true = Err EKey /\
+            lib_hdkey_from_wif false true (fun _ => true) w None None true = Err EKey
   | Err _ => False
   end.
 Proof. vm_compute. split; reflexivity. Qed.
@@ -198,8 +200,8 @@ Example xkey_uncompressed_flag_refuted :
                km_pubu := x04 :: repeat x33 64; km_compressed := false; km_chain := repeat x5a 32; km_depth := 0;
                km_fp := repeat x00 4; km_child := 0; km_network := "bitcoin"%string;
                km_witness := "segwit"%string; km_multisig := false |} in
-  match lib_xkey true km true with
-  | Ok w => match lib_hdkey_import false true (KStr w) None None false true with
+  match lib_xkey true (fun _ => true) km true with
+  | Ok w => match lib_hdkey_import false true (fun _ => true) (KStr w) None None false true with
             | Ok h => ko_key (ho_key h) = km_secret km /\ ko_compressed (ho_key h) = true
             | Err _ => False
             end
@@ -208,34 +210,58 @@ Example xkey_uncompressed_flag_refuted :
 Proof. vm_compute. split; reflexivity. Qed.
 
 (* ================= raw forms ================= *)
-(* private_byte, private_hex, secret (the integer): the same 32 bytes come back, leading zeros included *)
-Theorem raw_forms_roundtrip : forall fold wc secret h c ip,
-  length secret = 32%nat -> of_be secret <> 0 -> hint_ok h ->
-  lib_key_import fold wc (KBytes secret) h c ip = Ok (raw_key_obj true secret c (hint_network h) FBin) /\
-  lib_key_import fold wc (KStr (hex_encode secret)) h c ip = Ok (raw_key_obj true secret c (hint_network h) FHex) /\
-  lib_key_import fold wc (KInt (of_be secret)) h c ip = Ok (raw_key_obj true secret c (hint_network h) FDecimal).
+(* private_byte, private_hex, secret (the integer), for every secret in 1 .. n-1: the same 32 bytes come back,
+   leading zeros included *)
+Theorem raw_forms_roundtrip : forall fold wc oc secret h c ip,
+  length secret = 32%nat -> 0 < of_be secret < secp256k1_n -> hint_ok h ->
+  lib_key_import fold wc oc (KBytes secret) h c ip = Ok (raw_key_obj true secret c (hint_network h) FBin) /\
+  lib_key_import fold wc oc (KStr (hex_encode secret)) h c ip = Ok (raw_key_obj true secret c (hint_network h) FHex) /\
+  lib_key_import fold wc oc (KInt (of_be secret)) h c ip = Ok (raw_key_obj true secret c (hint_network h) FDecimal).
 Proof. exact raw_private_roundtrip. Qed.
 
-(* public_byte and public_hex, compressed (02/03 + 32 bytes) and uncompressed (04 + 64 bytes) *)
-Theorem raw_public_bytes_roundtrip : forall fold wc k0 kr h c,
-  hint_ok h -> (length kr = 32%nat /\ (k0 = x02 \/ k0 = x03)) \/ (length kr = 64%nat /\ k0 = x04) ->
-  lib_key_import fold wc (KBytes (k0 :: kr)) h c None =
+(* public_byte and public_hex, compressed (02/03 + 32 bytes) and uncompressed (04 + 64 bytes), for every point the
+   curve oracle accepts *)
+Theorem raw_public_bytes_roundtrip : forall fold wc oc k0 kr h c,
+  hint_ok h -> pub_shape k0 kr -> oc (k0 :: kr) = true ->
+  lib_key_import fold wc oc (KBytes (k0 :: kr)) h c None =
   Ok (raw_key_obj false (k0 :: kr) (Nat.eqb (length kr) 32) (hint_network h)
         (if Nat.eqb (length kr) 32 then FBinCompressed else FBin)).
 Proof. exact raw_public_bytes. Qed.
 
-Theorem raw_public_hex_roundtrip : forall fold wc k0 kr h c,
-  hint_ok h -> (length kr = 32%nat /\ (k0 = x02 \/ k0 = x03)) \/ (length kr = 64%nat /\ k0 = x04) ->
-  lib_key_import fold wc (KStr (hex_encode (k0 :: kr))) h c None =
+Theorem raw_public_hex_roundtrip : forall fold wc oc k0 kr h c,
+  hint_ok h -> pub_shape k0 kr -> oc (k0 :: kr) = true ->
+  lib_key_import fold wc oc (KStr (hex_encode (k0 :: kr))) h c None =
   Ok (raw_key_obj false (k0 :: kr) (Nat.eqb (length kr) 32) (hint_network h)
         (if Nat.eqb (length kr) 32 then FPublic else FPublicUncompressed)).
 Proof. exact raw_public_hex. Qed.
 
+(* outside the guards (intended since the C04 repairs): the group order as a secret is refused in every raw form, as a
+   WIF and inside an extended key, 0 is refused; a public key the curve oracle rejects, or of the wrong shape, is refused *)
+Example secret_out_of_range_refused :
+  lib_key_import false true (fun _ => true) (KBytes order_bytes) None true None = Err EKey /\
+  lib_key_import false true (fun _ => true) (KStr (hex_encode order_bytes)) None true None = Err EKey /\
+  lib_key_import false true (fun _ => true) (KInt secp256k1_n) None true None = Err EKey /\
+  lib_key_import false true (fun _ => true) (KInt 0) None true None = Err EKey /\
+  lib_key_import false true (fun _ => true)
+    (KStr (b58check_enc sha256d ([x80] ++ order_bytes ++ [x01]))) None true None = Err EKey /\
+  lib_hdkey_import false true (fun _ => true)
+    (KStr (b58check_enc sha256d (xkey_raw [x04; x88; xad; xe4] 0 (repeat x00 4) 0 (repeat x11 32) (x00 :: order_bytes))))
+    None None false true = Err EKey.
+Proof. exact KeyFormatFinal.secret_out_of_range_refused. Qed.
+
+Example off_curve_public_refused :
+  lib_key_import false true (fun _ => false) (KBytes (x02 :: repeat x33 32)) None true None = Err EKey /\
+  lib_key_import false true (fun _ => true) (KBytes (x02 :: repeat x33 32)) None true None =
+    Ok (raw_key_obj false (x02 :: repeat x33 32) true default_network FBinCompressed) /\
+  lib_key_import false true (fun _ => true) (KBytes (x05 :: repeat x33 32)) None true None = Err EUnmodelled /\
+  lib_key_import false true (fun _ => true) (KBytes (x04 :: repeat x33 32)) None true None = Err EKey.
+Proof. exact KeyFormatFinal.off_curve_public_refused. Qed.
+
 (* ================= never cross-classified ================= *)
 (* extended keys: is_private reported by get_key_format is the row's, whatever is_private the caller passes *)
-Theorem never_cross_classified_xkey : forall fold wc n r depth child fp chain k0 kr ip,
+Theorem never_cross_classified_xkey : forall fold wc oc n r depth child fp chain k0 kr ip,
   In n all_networks -> In r (nw_prefixes_wif n) ->
-  length fp = 4%nat -> length chain = 32%nat -> row_key_ok r k0 kr ->
+  length fp = 4%nat -> length chain = 32%nat -> row_key_ok oc r k0 kr ->
   lib_get_key_format fold wc (KStr (xkey_text r depth fp child chain (k0 :: kr))) ip =
   KfOk {| kf_format := if wr_private r then FHdPrivate else FHdPublic;
           kf_networks := Some (prefix_networks (wr_prefix r)); kf_private := wr_private r;
